@@ -619,7 +619,10 @@ func (vc *VC) nativeModel(fr *Frame, st *State, instr *ssa.Call, c *ssa.CallComm
 			if vc.bv {
 				nv = App(cur.Sort, "bvadd", cur, args[1])
 			} else {
-				nv = wrapInt(Add(cur, args[1]), ii)
+				nv = Add(cur, args[1])
+				if ii.bits <= 32 || !ii.signed {
+					nv = wrapInt(nv, ii)
+				}
 			}
 			nv = vc.q.Define(fr.prefix+"$atomnew", nv)
 			vc.guaranteeObl(fr, st, addr, ty, cur, nv, True, pos)
